@@ -78,6 +78,20 @@ def local_callee_bodies(F, cs, crate=None):
     return out
 
 
+def fn_item_args(F, cs):
+    """bodies of named functions of the workspace passed to this call as function items (`iter.filter_map(helper)`)"""
+    out = []
+    for ent in cs.callee.get("fn_args", []):
+        if ent[1] == "fn":
+            if len(ent) > 3 and ent[3] in getattr(F, "by_uid", {}):
+                out.append(F.by_uid[ent[3]])
+                continue
+            for b in F.bodies.values():
+                if b.def_ == ent[2]:
+                    out.append(b)
+    return out
+
+
 def closure_args(F, cs):
     """closure bodies passed (as generic fn args or closure-typed operands) to this call"""
     out = []
